@@ -312,10 +312,12 @@ template<class AIO> struct Rx {
 		if (ok) d.from = from, got.push_back(d);
 		return ok;
 	}
-	// until QK consecutive calls return false and leave the state unchanged
+	// until QK consecutive calls return false and leave the state unchanged.  Round-robin / direct: the receiver is
+	// deterministic and its scheduler cursors have period <= n calls, so n idle calls in a row prove a fixpoint (n+1 used).
+	// Random: P[some link is never drawn in 40 calls of n draws] <= 2 (2/3)^120.
 	void quiesce()
 	{
-		size_t qk = (sched == aiounicast::aio_scheduler_random) ? 64 : 2 * n + 2;
+		size_t qk = (sched == aiounicast::aio_scheduler_random) ? 40 : n + 1;
 		size_t horizon = calls + 64 * qk + 64, idle = 0;
 		uint64_t h0 = state(false);
 		while (idle < qk && calls < horizon)
@@ -619,7 +621,7 @@ static void gen_mutations(const WireImg &w, std::vector<Mut> &out)
 {
 	const std::string &W = w.bytes;
 	size_t len = W.size(), nm = w.msg.size();
-	auto base = [&](const std::string &name, size_t off) { Mut m; m.name = name, m.off = off, m.intact.assign(nm, true), m.in_iv = off < w.ivlen; return m; };
+	auto base = [&](const std::string &name, size_t off) { Mut m; m.name = name, m.off = off, m.intact.assign(nm, true), m.in_iv = off < w.ivlen, m.whole = false; return m; };
 	for (size_t o = 0; o < len; o++)
 	{
 		for (int bit = 0; bit < 8; bit += 7)
